@@ -215,7 +215,28 @@ def td_strategy(tier):
         "compression": st.sampled_from([5, 10, 20, 100, 200]) | st.floats(1.0, 50.0),
         "qs": st.lists(st.floats(0, 1), max_size=30),
         "interleave": st.booleans(),
+        "cut": st.integers(0, 400),                 # split point for the merged-halves variant
+        "more": st.lists(val, max_size=4),          # added to the merged digest afterwards
     })
+
+
+def _td_claims(r, tag, td, vals, qs):
+    """The stated t-digest claims for a digest that has seen exactly `vals`."""
+    qv = [td.quantile(q) for q in qs]
+    lo, hi = min(vals), max(vals)
+    for (q1, x), (q2, y) in zip(zip(qs, qv), zip(qs[1:], qv[1:])):
+        if x > y + 1e-9 * max(1.0, abs(x), abs(y)):
+            r.add(f"{P}/tdigest/{tag}quantile-not-monotone", f"q({q1})={x} > q({q2})={y}")
+            break
+    tol = 1e-9 * max(1.0, abs(lo), abs(hi))
+    for q, v in zip(qs, qv):
+        if v < lo - tol or v > hi + tol:
+            r.add(f"{P}/tdigest/{tag}quantile-outside-min-max", f"q({q})={v} not in [{lo},{hi}]")
+            break
+    if td.min != lo or td.max != hi:
+        r.add(f"{P}/tdigest/{tag}min-max", f"{td.min},{td.max} vs {lo},{hi}")
+    if td.item_count != len(vals):
+        r.add(f"{P}/tdigest/{tag}item-count", f"{td.item_count} != {len(vals)}")
 
 
 def ex_td(case):
@@ -244,8 +265,83 @@ def ex_td(case):
         r.add(f"{P}/tdigest/min-max", f"{td.min},{td.max} vs {lo},{hi}")
     if td.item_count != len(vals):
         r.add(f"{P}/tdigest/item-count", f"{td.item_count} != {len(vals)}")
+    # merged halves (every split point, either half possibly empty), then the stream continues on the merged digest
+    pairs = case["vals"]
+    cut = case.get("cut", 0) % (len(pairs) + 1)
+    ta, tb = TDigest(compression=case["compression"]), TDigest(compression=case["compression"])
+    for v, w in pairs[:cut]:
+        ta.add(v, w)
+    for v, w in pairs[cut:]:
+        tb.add(v, w)
+    ta.merge(tb)
+    _td_claims(r, "merged-", ta, vals, qs)
+    if case.get("more") and not r.violations:
+        more = list(vals)
+        for v in case["more"]:
+            ta.add(v)
+            more.append(v)
+        _td_claims(r, "merged-then-added-", ta, more, qs)
     r.nontrivial = len(vals) > 2 * td.centroid_count or len(set(vals)) >= 5
-    r.labels += ["td-compressed" if len(vals) > td.centroid_count else "td-exact"]
+    r.labels += ["td-compressed" if len(vals) > td.centroid_count else "td-exact",
+                 "td-merge:" + ("empty-half" if cut in (0, len(pairs)) else "two-halves")]
+    return r
+
+
+# ------------------------------------------------------------------------------ equal-but-different items in long streams
+ALIASES = [(0.0, -0.0), (1, 1.0), (1, True), (0, False), (2.0, 2), ((1, "g"), (1.0, "g")), ((0, "x"), (False, "x")), (True, 1.0)]
+
+
+def alias_strategy(tier):
+    return st.fixed_dictionaries({
+        "pair": st.integers(0, len(ALIASES) - 1), "swap": st.booleans(),
+        "n": st.integers(1, 20), "m": st.integers(0, 3),
+        "fill": st.sampled_from([0, 5, 100, 300, 300, 700] + ([3000] if tier == "thorough" else [])),
+        "fillkind": st.sampled_from(["int", "str", "tuple"]),
+        "w": st.sampled_from([1024, 4096]), "d": st.sampled_from([2, 4]), "seed": st.sampled_from([None, 0, 7]),
+        "again": st.booleans(),
+    })
+
+
+def ex_alias(case):
+    """Items that compare equal but print differently (0.0 / -0.0, 1 / 1.0 / True, tuples of those), separated by a long run of
+    other keys.  Whichever notion of identity the sketch uses, an item inserted n times is present (Bloom) and is estimated at
+    >= n (Count-Min); the oracle counts by (type-exact) repr, the weaker of the two readings."""
+    from happysimulator.sketching.bloom_filter import BloomFilter
+    from happysimulator.sketching.count_min_sketch import CountMinSketch
+    r = Result()
+    a, b = ALIASES[case["pair"] % len(ALIASES)]
+    if case["swap"]:
+        a, b = b, a
+    n, m, k = max(1, case["n"]), case["m"], case["fill"]
+    fk = case["fillkind"]
+    fillers = [(10_000 + i) if fk == "int" else (f"f{i}" if fk == "str" else (i, "f")) for i in range(k)]
+    stream = [a] * n + fillers + [b] * m + (fillers[: k // 2] if case["again"] else [])
+    cms = CountMinSketch(width=case["w"], depth=case["d"], seed=case["seed"])
+    bf = BloomFilter(size_bits=1 << 16, num_hashes=3, seed=case["seed"])
+    true = Counter()
+    for x in stream:
+        cms.add(x)
+        bf.add(x)
+        true[repr(x)] += 1
+    for x in (a, b):
+        want = true[repr(x)]
+        if cms.estimate(x) < want:
+            r.add(f"{P}/alias/cms-underestimate", f"{x!r} was added {want} times (stream: {n} x {a!r}, {k} other keys, {m} x {b!r}), "
+                                                  f"estimate {cms.estimate(x)}")
+        if want and not bf.contains(x):
+            r.add(f"{P}/alias/bloom-false-negative", f"{x!r} was added {want} times, contains() is False")
+    # merge of the two halves around the fillers = sketch of the whole stream
+    h1, h2 = CountMinSketch(width=case["w"], depth=case["d"], seed=case["seed"]), CountMinSketch(width=case["w"], depth=case["d"], seed=case["seed"])
+    cut = n + k // 2
+    for x in stream[:cut]:
+        h1.add(x)
+    for x in stream[cut:]:
+        h2.add(x)
+    h1.merge(h2)
+    if getattr(h1, "_counters", None) != getattr(cms, "_counters", None) or any(h1.estimate(x) != cms.estimate(x) for x in (a, b)):
+        r.add(f"{P}/alias/cms-merge-differs-from-concatenation", f"{n} x {a!r}, {k} other keys, {m} x {b!r}")
+    r.nontrivial = k >= 100 and m >= 1
+    r.labels += [f"alias-fill:{k}", "alias-both" if m else "alias-one"]
     return r
 
 
@@ -525,6 +621,8 @@ OBLIGATIONS = [
                "streams (incl. items that compare equal but are distinct items: 1 / True / 1.0) split into two HyperLogLogs; non-trivial = both halves contain items the other lacks"),
     Obligation("tdigest", td_strategy, ex_td, {"quick": 800, "thorough": 40000},
                "finite float multisets (mixed magnitudes, repeated values, weights) with compression 1..200 and generated query points plus 0, 1; non-trivial = centroids were merged or >=5 distinct values"),
+    Obligation("alias", alias_strategy, ex_alias, {"quick": 400, "thorough": 8000},
+               "items that compare equal but print differently, with >= 100 other keys in between and both spellings inserted"),
     Obligation("reservoir", stream_case({"k": st.sampled_from([1, 2, 3, 10])}),
                ex_res, {"quick": 800, "thorough": 40000},
                "streams into ReservoirSampler(k), checked after every add; non-trivial = stream longer than k"),
